@@ -38,12 +38,11 @@ CONSTANTS
   TakeRead,      \* [TRUE]  S takes READ0..4 shared
   CopyOffsets,   \* [TRUE]  S reads pages through its own copy of frameOffsets
   CkptGate,      \* [TRUE]  TryLocks refuses CKPT while another owner holds WRITE
-  TrackSig,      \* see Effect
-  Emit           \* print one TRACE line per distinct final state
+  TrackSig,      \* TRUE: remember in which phase of S the others acted (more distinct final states = more schedules)
+  Emit           \* print one TRACE line (schedule + predicted outcome) per distinct final state
 
 None == "none"
 Locks == {"PENDING", "SHARED", "RESERVED", "WRITE", "CKPT", "RECOVER", "READ0", "READN"}
-LockSeq == <<"PENDING", "SHARED", "RESERVED", "WRITE", "CKPT", "RECOVER", "READ0", "READN">>
 
 VARIABLES
   dbf,     \* database file: sequence of page versions
